@@ -443,7 +443,7 @@ def map_rules(chk, program):
         st = stores[0]
         new = st[3]
         g = sym.conj(st[1])
-        claim_conds = [x for x in g if x[0] == 'cmp' and x[1] == '==' and (x[3] == ('name', 'ISO_CLAIM_PGN') or x[2] == ('name', 'ISO_CLAIM_PGN'))]
+        claim_conds = [x for x in g if x[0] == 'cmp' and x[1] == '==' and (x[3] in (('name', 'ISO_CLAIM_PGN'), ('const', consts['ISO_CLAIM_PGN'])) or x[2] in (('name', 'ISO_CLAIM_PGN'), ('const', consts['ISO_CLAIM_PGN'])))]
         msgterm = adds[0][2][1][1]
         data_int = None
         if new[0] == 'call' and new[1] == ('name', 'IsoName') and len(new[2]) == 2:
